@@ -64,4 +64,67 @@ let register (reg : string -> (Sx.t list -> Sx.t) -> unit) : unit =
   reg "split_host_port" (function
       | [x] -> wr_opt (wr_pair wr_str wr_str) (NetAddr.split_host_port (rd_str x))
       | _ -> raise (Bad "split_host_port arity"));
+  (* ---- Csrf ---- *)
+  reg "callback_state" (function
+      | [macs; decs; hashes; cfg; state; cookies; now0; now1; redeem_ok] ->
+        let m = table_fun (rd_table macs) in
+        let h = table_fun (rd_table hashes) in
+        let dtab = Hashtbl.create 8 in
+        List.iter (function
+            | L [k; L [st; nn; cv]] ->
+              Hashtbl.replace dtab (string_of_str (rd_str k))
+                { Csrf.cs_state = rd_str st; cs_nonce = rd_str nn; cs_verifier = rd_str cv }
+            | v -> raise (Bad ("bad dec entry " ^ to_string v))) (match decs with L l -> l | _ -> []);
+        let d raw = Hashtbl.find_opt dtab (string_of_str raw) in
+        let c = (match cfg with
+            | L [name; per; enc; expire] ->
+              { Csrf.k_name = rd_str name; k_per_request = rd_bool per; k_encode_state = rd_bool enc;
+                k_expire_ns = rd_z expire }
+            | v -> raise (Bad ("bad csrf cfg " ^ to_string v))) in
+        let f now = Csrf.callback_state m d h c (rd_str state) (rd_cookies cookies) (rd_z now) (rd_bool redeem_ok) in
+        let a = f now0 and b = f now1 in
+        if a <> b then Y "ambiguous" else
+          (match a with
+           | Csrf.CbStateInvalid -> Y "state_invalid"
+           | Csrf.CbNoCsrf -> Y "no_csrf"
+           | Csrf.CbRedeemFail -> Y "redeem_fail"
+           | Csrf.CbStateMismatch -> Y "state_mismatch"
+           | Csrf.CbStateOK (r, rd) ->
+             L [Y "ok"; wr_str rd; wr_str r.Csrf.cs_nonce; wr_str r.Csrf.cs_verifier])
+      | _ -> raise (Bad "callback_state arity"));
+  (* the callback's observable outcome up to the state check, given an IdP that answers the
+     redemption (or not) and echoes the nonce of the login the state belongs to *)
+  reg "callback_obs" (function
+      | [macs; decs; hashes; cfg; state; cookies; now0; now1; redeem_ok] ->
+        let m = table_fun (rd_table macs) in
+        let h = table_fun (rd_table hashes) in
+        let dtab = Hashtbl.create 8 in
+        List.iter (function
+            | L [k; L [st; nn; cv]] ->
+              Hashtbl.replace dtab (string_of_str (rd_str k))
+                { Csrf.cs_state = rd_str st; cs_nonce = rd_str nn; cs_verifier = rd_str cv }
+            | v -> raise (Bad ("bad dec entry " ^ to_string v))) (match decs with L l -> l | _ -> []);
+        let d raw = Hashtbl.find_opt dtab (string_of_str raw) in
+        let c = (match cfg with
+            | L [name; per; enc; expire] ->
+              { Csrf.k_name = rd_str name; k_per_request = rd_bool per; k_encode_state = rd_bool enc;
+                k_expire_ns = rd_z expire }
+            | v -> raise (Bad ("bad csrf cfg " ^ to_string v))) in
+        let f now = Csrf.callback_state m d h c (rd_str state) (rd_cookies cookies) (rd_z now) (rd_bool redeem_ok) in
+        let a = f now0 and b = f now1 in
+        let obs st sess tok clr loc = L [I (string_of_int st); wr_bool sess; wr_bool tok; wr_bool clr; S loc] in
+        if a <> b then Y "ambiguous" else
+          (match a with
+           | Csrf.CbStateInvalid -> obs 500 false false false ""
+           | Csrf.CbNoCsrf -> obs 403 false false false ""
+           | Csrf.CbRedeemFail -> obs 500 false true false ""
+           | Csrf.CbStateMismatch -> obs 403 false true true ""
+           | Csrf.CbStateOK (_, rd) -> obs 302 true true true (string_of_str rd))
+      | _ -> raise (Bad "callback_obs arity"));
+  reg "decode_state" (function
+      | [state; enc] -> wr_opt (wr_pair wr_str wr_str) (Csrf.decode_state (rd_str state) (rd_bool enc))
+      | _ -> raise (Bad "decode_state arity"));
+  reg "encode_state" (function
+      | [nonce; rd; enc] -> wr_str (Csrf.encode_state (rd_str nonce) (rd_str rd) (rd_bool enc))
+      | _ -> raise (Bad "encode_state arity"));
   ()
